@@ -334,3 +334,7 @@ func VerifC06_DupFlush() {
 
 func VerifC06_ServeQuick()    { vC06Serve(2) }
 func VerifC06_ServeThorough() { vC06Serve(3) }
+
+// larger configurations, explored delay-bounded (see check spec)
+func VerifC06_Serve4() { vC06Serve(4) }
+func VerifC06_Serve5() { vC06Serve(5) }
